@@ -57,6 +57,21 @@ impl<'a, 'ast> Visit<'ast> for FnFinder<'a> {
         }
         syn::visit::visit_impl_item_fn(self, f);
     }
+    /// Default methods of `trait T { fn name(..) { .. } }`, addressed as `T::name` only.
+    fn visit_item_trait(&mut self, t: &'ast syn::ItemTrait) {
+        if self.tr.is_none() && self.ty.map(|ty| t.ident == ty).unwrap_or(false) {
+            for it in &t.items {
+                if let syn::TraitItem::Fn(f) = it {
+                    if f.sig.ident == self.name {
+                        if let Some(b) = &f.default {
+                            self.found.push(FoundFn { sig: f.sig.clone(), block: b.clone() });
+                        }
+                    }
+                }
+            }
+        }
+        syn::visit::visit_item_trait(self, t);
+    }
     fn visit_item_fn(&mut self, f: &'ast syn::ItemFn) {
         if self.ty.is_none() && self.tr.is_none() && f.sig.ident == self.name {
             self.found.push(FoundFn { sig: f.sig.clone(), block: (*f.block).clone() });
